@@ -191,4 +191,34 @@ theorem fres_foldl (H : Bytes → K) (sops : List SOp) (s : Sess K) :
     | dirHealthyVia k now => simp only [sstep, checksOf]; (repeat' split) <;> rfl
     | api op => simp [sstep, checksOf]
 
+/-! ### run level -/
+
+omit [DecidableEq K] in
+theorem checkFile_caps (db : Db K) (p : Bytes) (st : Stat) (ts : Bool) (now : Int) (rnd : Nat) :
+    (checkFile db p st ts now rnd).1.caps = db.caps ∧ (checkFile db p st ts now rnd).1.nextId = db.nextId := by
+  unfold checkFile
+  (repeat' split) <;> simp
+
+omit [DecidableEq K] in
+/-- with `use_timestamps=False` `check_file` never reports a cap -/
+theorem checkFile_no_ts_none (db : Db K) (p : Bytes) (st : Stat) (now : Int) (rnd : Nat) :
+    (checkFile db p st false now rnd).2.filecap = none := by
+  unfold checkFile
+  (repeat' split) <;> simp_all
+
+omit [DecidableEq K] in
+/-- right after `did_upload_file(cap, path, mtime, ctime, size)` a `check_file` that sees the same stat reports `cap` -/
+theorem checkFile_after_upload (db : Db K) (hok : CapsOk db.caps db.nextId) (cap p : Bytes) (st : Stat)
+    (now now' : Int) (rnd : Nat) :
+    (checkFile (didUploadFile db cap p st.mtime st.ctime st.size now) p st true now' rnd).2.filecap = some cap := by
+  obtain ⟨_, a2, _, _, _⟩ := alloc_spec db cap hok
+  unfold checkFile
+  simp only [didUploadFile, get_put_same, a2]
+  simp
+
+theorem sstep_check_fres (H : Bytes → K) (s : Sess K) (p : Bytes) (st : Stat) (ts : Bool) (now : Int) (rnd : Nat) :
+    (sstep H s (.check p st ts now rnd)).fres[s.fres.length]? = some (checkFile s.db p st ts now rnd).2
+      ∧ (sstep H s (.check p st ts now rnd)).db = (checkFile s.db p st ts now rnd).1 := by
+  simp [sstep]
+
 end Tahoe.BackupDb
